@@ -295,14 +295,10 @@ PAIRS = [
          subs=[], props=("C17", "C13", "C14"), why="switching examples on only adds example bookkeeping"),
     Pair("direct-triple-features-with-vs-without-examples", DFS + "_annotate_triple_features_no_examples",
          DFS + "_annotate_triple_features_with_examples", mode="prefix", props=("C17", "C13")),
-    Pair("cap-stop-vs-no-stop", ICM + "_annotate_class_with_no_stop_condition", ICM + "_annotate_class_with_stop_condition",
-         mode="prefix", props=("C16",), why="the early-stop variant only adds the stop tail"),
     Pair("annotate-triple-target-vs-all", MODES + "target_classes_mode:TargetClassesMode.annotate_triple",
          MODES + "all_classes_mode:AllClasesMode.annotate_triple", props=("C10", "C16")),
     Pair("annotate-triple-target-vs-cap", MODES + "target_classes_mode:TargetClassesMode.annotate_triple", ICM + "annotate_triple",
          props=("C10", "C16")),
-    Pair("cap-annotate-class-vs-base", MODES + "base_strategy_mode:BaseStrategyMode.annotate_class",
-         ICM + "_annotate_class_with_no_stop_condition", mode="prefix", props=("C16",)),
     Pair("endpoint-local-po-vs-sp", ESG + "_yield_local_p_o_triples_of_an_s", ESG + "_yield_local_s_p_triples_of_an_o",
          subs=[(r"_subjects_tracked", "_tracked"), (r"_objects_tracked", "_tracked"), (r"p_o_triples_of_an_s", "triples_of_a_node"),
                (r"s_p_triples_of_an_o", "triples_of_a_node")], props=("C15",)),
@@ -352,15 +348,38 @@ PAIRS = [
     Pair("remove-statements-2d-direct-vs-inverse", DIS + "remove_statements_to_gone_shapes", DIS + "remove_statements_to_gone_shapes",
          props=()),
     Pair("strategy-init-direct-vs-2d", DSS + "__init__", DIS + "__init__", props=("C14",)),
-    Pair("has-annotated-features", DFS + "has_shape_annotated_features", IRF + "has_shape_annotated_features",
-         expected=[(r"return v0 in self\._c_shapes_dict and bool\(self\._c_shapes_dict\[v0\]\)",
-                    r"return v0 in self\._c_shapes_dict and \(bool\(self\._c_shapes_dict\[v0\]\[_C_MAP_POS_DIRECT\]\) or bool\(self\._c_shapes_dict\[v0\]\[_C_MAP_POS_INVERSE\]\)\)",
-                    "with inverse paths a shape has features when either half has")], props=("C02", "C14")),
 ]
+
+
+def annotated_features_table(ctx, clause):
+    """has_shape_annotated_features of the two profiling strategies, decided by what it answers rather than how it is written:
+    an unknown shape and a shape with empty feature dictionaries have no features; with inverse paths a shape has features when
+    either half has."""
+    from ..abseval import Evaluator
+    rows = (("DirectFeaturesStrategy", [({}, False), ({"S": {}}, False), ({"S": {"p": {"t": {1: 2}}}}, True)]),
+            ("IncludeReverseFeaturesStrategy", [({}, False), ({"S": [{}, {}]}, False), ({"S": [{"p": {"t": {1: 2}}}, {}]}, True),
+                                                ({"S": [{}, {"p": {"t": {1: 2}}}]}, True)]))
+    bad, n, loc = [], 0, None
+    for cname, states in rows:
+        f = ctx.p.method(cname, "has_shape_annotated_features")
+        loc = loc or f.loc()
+        for state, want in states:
+            outs = Evaluator(ctx, max_depth=8).outcomes(f, {f.bound_params[0]: "S"}, {"self._c_shapes_dict": state})
+            n += 1
+            if outs != [("return", want)]:
+                bad.append("%s with shapes dictionary %r answers %s, expected %s" % (f.short, state, outs, want))
+                loc = f.loc()
+    return Ob(clause, "R-TWIN", "R-TWIN|has-annotated-features", loc, not bad,
+              "both strategies agree on what an annotated shape is (%d rows: unknown shape, empty dictionaries, either half filled)" % n
+              if not bad else "; ".join(bad))
 
 
 def check_pairs(ctx, clause, prop):
     obs = []
+    if prop in ("C02", "C14"):
+        o = ctx.attempt(annotated_features_table, ctx, clause)
+        if o is not None:
+            obs.append(o)
     for pair in PAIRS:
         if prop in pair.props:
             o = ctx.attempt(compare_pair, ctx, pair, clause)
